@@ -171,6 +171,22 @@ func (c *Code) PrepareCharSetASCIIBitmaps() {
 	}
 }
 
+// UsesStartAnchor reports whether the program contains \G, whose meaning depends on the
+// position at which a scan was started (and not only on where a match is attempted).
+func (c *Code) UsesStartAnchor() bool {
+	if c == nil {
+		return false
+	}
+	for pos := 0; pos < len(c.Codes); {
+		op := InstOp(c.Codes[pos]) & Mask
+		if op == Start {
+			return true
+		}
+		pos += opcodeSize(op)
+	}
+	return false
+}
+
 func opcodeBacktracks(op InstOp) bool {
 	op &= Mask
 
